@@ -1,6 +1,6 @@
 (* C01 — table obligations (closed computations on the regenerated Tables.v) and the lemmas of
    ReqProofs.v instantiated with them. *)
-From G01 Require Import ReqE2E ViaProofs ReqProofs Ob18.
+From G01 Require Import ReqE2E ViaProofs ReqProofs RouteProofs Ob18.
 From G16 Require C16.
 
 (* the source's hop-by-hop list is the documented one (Connection, Keep-Alive, Proxy-Authenticate,
@@ -67,6 +67,16 @@ Definition f01_site_auth cfg h k := site_auth_pointwise cfg h k ob_basic_auth_te
 Lemma b64_vectors : b64 (b "foobar") = b "Zm9vYmFy" /\ b64 (b "fooba") = b "Zm9vYmE=" /\ b64 (b "foob") = b "Zm9vYg==" /\
   basic_value (b "site") (b "secret") = b "Basic c2l0ZTpzZWNyZXQ=".
 Proof. vm_compute. repeat split. Qed.
+
+(* route-level statements for C18 *)
+Definition f18_stack_refuses_own := stack_refuses_own ob_hop_list ob_flat_stack ob_xff_reads_all_lines ob_xfwd_fill_reads_all_lines
+  ob_via_reads_all_lines ob_via_loop_status ob_via_sets_close status_400.
+Definition f18_route_terminates := route_terminates ob_hop_list ob_flat_stack ob_xff_reads_all_lines ob_xfwd_fill_reads_all_lines
+  ob_via_reads_all_lines ob_via_loop_status ob_via_sets_close status_400.
+Definition f18_self_route := self_route ob_hop_list ob_flat_stack ob_xff_reads_all_lines ob_xfwd_fill_reads_all_lines
+  ob_via_reads_all_lines ob_via_loop_status ob_via_sets_close status_400.
+Definition f18_two_instance_route := two_instance_route ob_hop_list ob_flat_stack ob_xff_reads_all_lines ob_xfwd_fill_reads_all_lines
+  ob_via_reads_all_lines ob_via_loop_status ob_via_sets_close status_400.
 
 Lemma f01_user_agent_never_default tag r r' : modify_request tag r = Passed r' -> raw_get k_ua (q_hdr r') <> None.
 Proof. intro H. rewrite (f01_user_agent tag r r' H). destruct (raw_get k_ua (after_removal (q_hdr r))); discriminate. Qed.
